@@ -1208,24 +1208,116 @@ Qed.
 
 (* ================================================================= load errors *)
 
-(* the states of the source that FORD contains, or that carry what A exported *)
-Inductive benign : source -> Prop :=
-| BnLocalBad d : benign (SLocal d LBadJson)
-| BnRemoteBad u : benign (SRemote u RBadJson)
-| BnUrlError u : benign (SRemote u RUrlError)
-| BnLocalOk d A v : benign (SLocal d (LJson (export A v)))
-| BnRemoteOk u A v : benign (SRemote u (RJson (export A v))).
-
-Theorem load_contained_partial src : benign src -> survives (load src) = true.
+(* the model's own fuel always suffices: OutOfFuel is never the answer *)
+Lemma bind_oof {A B} (x : res A) (f : A -> res B) :
+  x <> Err OutOfFuel -> (forall a, x = Ok a -> f a <> Err OutOfFuel) -> bind x f <> Err OutOfFuel.
 Proof.
-  intros []; try reflexivity.
-  - now rewrite load_export_local.
-  - now rewrite load_export_remote.
+  destruct x as [a|e]; simpl; intros H1 H2; [now apply H2|].
+  intros [= ->]. now apply H1.
 Qed.
 
-Theorem load_failed_only_links src :
-  benign src -> has_description src = false -> only_links_lost (load src) = true.
-Proof. intros []; simpl; intros H; try discriminate; reflexivity. Qed.
+Lemma import_items_oof rec l :
+  (forall x, In x l -> rec x <> Err OutOfFuel) -> import_items rec l <> Err OutOfFuel.
+Proof.
+  induction l as [|x r IH]; intros H; simpl; [discriminate|].
+  assert (Hr : import_items rec r <> Err OutOfFuel) by (apply IH; intros y Hy; apply H; now right).
+  destruct (truthy x); [|exact Hr].
+  apply bind_oof; [apply H; now left|]. intros v _. apply bind_oof; [exact Hr|]. discriminate.
+Qed.
+
+Lemma import_pairs_oof rec l :
+  (forall k x, In (k, x) l -> rec x <> Err OutOfFuel) -> import_pairs rec l <> Err OutOfFuel.
+Proof.
+  induction l as [|[k x] r IH]; intros H; simpl; [discriminate|].
+  assert (Hr : import_pairs rec r <> Err OutOfFuel) by (apply IH; intros k' y Hy; apply (H k'); now right).
+  destruct (truthy x); [|exact Hr].
+  apply bind_oof; [apply (H k); now left|]. intros v _. apply bind_oof; [exact Hr|]. discriminate.
+Qed.
+
+Definition items_fine (rec : json -> res xval) (d : list (str * json)) : Prop :=
+  (forall k l x, In (k, JList l) d -> In x l -> rec x <> Err OutOfFuel) /\
+  (forall k l k2 x, In (k, JDict l) d -> In (k2, x) l -> rec x <> Err OutOfFuel).
+
+Lemma import_attrs_oof rec d keys : items_fine rec d -> import_attrs rec d keys <> Err OutOfFuel.
+Proof.
+  intros [HL HD]. induction keys as [|k ks IH]; simpl; [discriminate|].
+  destruct (assoc_get k d) as [v|] eqn:E; [|exact IH].
+  apply assoc_get_in in E.
+  destruct v; try (apply bind_oof; [exact IH|discriminate]).
+  - apply bind_oof; [apply import_items_oof; intros x Hx; eapply HL; eauto|].
+    intros vs _. apply bind_oof; [exact IH|discriminate].
+  - apply bind_oof; [apply import_pairs_oof; intros k2 x Hx; eapply HD; eauto|].
+    intros vs _. apply bind_oof; [exact IH|discriminate].
+Qed.
+
+Lemma import_node_oof b rec d : items_fine rec d -> import_node b rec d <> Err OutOfFuel.
+Proof.
+  intros H. unfold import_node.
+  destruct (assoc_get (s "name") d); [|discriminate].
+  destruct (assoc_get (s "external_url") d) as [eu|]; [|discriminate].
+  apply bind_oof.
+  { destruct (truthy eu); [destruct eu|]; discriminate. }
+  intros url _.
+  destruct (assoc_get (s "obj") d) as [obj|]; [|discriminate].
+  destruct (match assoc_get (s "proctype") d with Some p => p | None => obj end); try discriminate.
+  destruct (entity_class (lower x)) as [c|]; [|discriminate].
+  apply bind_oof.
+  { destruct (xcls_eqb c XInterface); [destruct (assoc_get (s "proctype") d)|]; discriminate. }
+  intros pt _. apply bind_oof; [now apply import_attrs_oof|discriminate].
+Qed.
+
+Lemma import_fuel_oof b : forall n j, jsize j <= n -> import_fuel n b j <> Err OutOfFuel.
+Proof.
+  induction n as [|f IH]; intros j L; [pose proof (jsize_pos j); lia|].
+  destruct j; simpl; try discriminate.
+  apply import_node_oof. split.
+  - intros k l0 x Hk Hx. apply IH.
+    pose proof (jsize_in_list _ _ Hx). pose proof (jsize_in_dict _ _ _ Hk). lia.
+  - intros k l0 k2 x Hk Hx. apply IH.
+    pose proof (jsize_in_dict _ _ _ Hx). pose proof (jsize_in_dict _ _ _ Hk). lia.
+Qed.
+
+Lemma import_all_oof b l : import_all b l <> Err OutOfFuel.
+Proof.
+  induction l as [|x r IH]; simpl; [discriminate|].
+  apply bind_oof; [apply import_fuel_oof; lia|]. intros v _. apply bind_oof; [exact IH|discriminate].
+Qed.
+
+Theorem load_json_total b j : load_json b j <> Err OutOfFuel.
+Proof.
+  unfold load_json. apply bind_oof.
+  - destruct j; try discriminate.
+    + destruct (has_substr METADATA_NAME x); discriminate.
+    + destruct (existsb (json_is_str METADATA_NAME) l); discriminate.
+    + destruct (existsb _ l); [destruct (assoc_get (s "modules") l)|]; discriminate.
+  - intros mods _. destruct mods; try discriminate. apply import_all_oof.
+Qed.
+
+Lemma caught_python e : e <> OutOfFuel -> caught e = true.
+Proof. destruct e; intros H; try reflexivity. now contradiction H. Qed.
+
+Lemma of_res_survives r : r <> Err OutOfFuel -> survives (of_res r) = true.
+Proof.
+  destruct r as [l|e]; intros H; [reflexivity|]. unfold of_res, of_exn.
+  rewrite caught_python; [reflexivity|]. intros ->. now apply H.
+Qed.
+
+(* whatever state the description is in - missing, unreadable, not UTF-8, not JSON, JSON of any
+   shape whatsoever - the run goes on; and when there is no description only the links are lost *)
+Theorem load_errors_contained src :
+  survives (load src) = true /\ (has_description src = false -> only_links_lost (load src) = true).
+Proof.
+  destruct src as [d [| | |j]|u [| | |j]]; simpl; split; try reflexivity; try discriminate;
+    intros; apply of_res_survives, load_json_total.
+Qed.
+
+(* a description that fails to load leaves nothing behind: the outcome is either everything it
+   describes or nothing *)
+Theorem load_all_or_nothing src :
+  match load src with OLoaded _ | OContained => True | ORaised _ => False end.
+Proof.
+  destruct (load_errors_contained src) as [H _]. destruct (load src); [exact I|exact I|discriminate H].
+Qed.
 
 (* ================================================================= the round trip *)
 
@@ -1347,19 +1439,14 @@ Lemma local_first_find_refuted :
   project_find B_shape tops_shape (s "shape") None None = Ok (Some (HExt (hd (XS []) tops_shape))).
 Proof. split; vm_compute; reflexivity. Qed.
 
-(* load errors that end the run *)
-Lemma load_missing_raises d : load (SLocal d LMissing) = ORaised FileNotFoundError.
-Proof. reflexivity. Qed.
-Lemma load_absolute_raises p : load (SLocalAbs p) = ORaised TypeError.
-Proof. reflexivity. Qed.
-Lemma load_undecodable_raises d : load (SLocal d LUndecodable) = ORaised UnicodeDecodeError.
-Proof. reflexivity. Qed.
-Lemma load_shape_raises d :
-  load (SLocal d (LJson (JDict [(METADATA_NAME, JDict [])]))) = ORaised KeyError /\
-  load (SLocal d (LJson (JList [JDict [(s "name", JStr (s "m"))]]))) = ORaised KeyError /\
-  load (SLocal d (LJson (JNum 3))) = ORaised TypeError /\
+(* descriptions of the wrong shape are contained (they used to end the run) *)
+Lemma load_shape_contained d :
+  load (SLocal d (LJson (JDict [(METADATA_NAME, JDict [])]))) = OContained /\
+  load (SLocal d (LJson (JList [JDict [(s "name", JStr (s "m"))]]))) = OContained /\
+  load (SLocal d (LJson (JNum 3))) = OContained /\
   load (SLocal d (LJson (JList [JDict [(s "name", JStr (s "m")); (s "external_url", JNum 1);
-                                        (s "obj", JStr (s "module"))]]))) = ORaised AttributeError.
+                                        (s "obj", JStr (s "module"))]]))) = OContained /\
+  load (SLocal d LMissing) = OContained /\ load (SLocal d LUndecodable) = OContained.
 Proof. repeat split; reflexivity. Qed.
 
 Lemma consistent_of_nodup rs : NoDup (map r_id rs) -> consistent rs.
@@ -1477,11 +1564,6 @@ Proof.
   - now apply find_local_when_no_ext.
 Qed.
 
-Lemma load_errors_contained_partial src :
-  benign src ->
-  survives (load src) = true /\ (has_description src = false -> only_links_lost (load src) = true).
-Proof. intros H. split; [now apply load_contained_partial|now apply load_failed_only_links]. Qed.
-
 (* ================================================================= non-vacuity *)
 
 Lemma roundtrip_nonvacuous :
@@ -1549,8 +1631,3 @@ Example find_partial_ex :
   defined_locally [(CProcedures, [s "Other"])] (s "other") = true /\
   lower_in (s "Shape") (local_names [(CSubmodules, [s "shape"])] CSubmodules) = true.
 Proof. repeat split; reflexivity. Qed.
-
-Example benign_ex :
-  benign (SLocal (s "/a") LBadJson) /\ benign (SRemote (s "http://h/") RUrlError) /\
-  benign (SRemote (s "http://h/") (RJson (export A_ex []))).
-Proof. repeat split; constructor. Qed.
